@@ -134,8 +134,8 @@ Lemma compare_ucs2_lt_all : forall a b, (go_compare_ucs2 a b <? 0) = spec_string
 Proof.
   induction a as [|x a IH]; intros [|y b]; unfold spec_string_lt; cbn [go_compare_ucs2 is_string_prefix first_diff length].
   - reflexivity.
-  - cbn. lia.
-  - cbn. lia.
+  - cbn [length Z.of_nat]. lia.
+  - cbn [length Z.of_nat]. lia.
   - destruct (x - y =? 0) eqn:E.
     + assert (x = y) by lia. subst y. rewrite !Z.eqb_refl. cbn [andb].
       rewrite IH. unfold spec_string_lt. reflexivity.
@@ -145,9 +145,8 @@ Qed.
 
 Lemma compare_ucs2_eq_all : forall a b, (go_compare_ucs2 a b =? 0) = zlist_eqb a b.
 Proof.
-  induction a as [|x a IH]; intros [|y b]; cbn [go_compare_ucs2 zlist_eqb list_eqb length]; try reflexivity.
-  - cbn. lia.
-  - cbn. lia.
+  unfold zlist_eqb.
+  induction a as [|x a IH]; intros [|y b]; cbn [go_compare_ucs2 list_eqb length]; try reflexivity.
   - destruct (x - y =? 0) eqn:E.
     + assert (Hxy : (x =? y) = true) by lia. rewrite Hxy. cbn [andb]. apply IH.
     + assert (Hxy : (x =? y) = false) by lia. rewrite Hxy. cbn [andb]. lia.
